@@ -28,6 +28,7 @@ EXPLANATION = (
     'sub-views use the stored pointer plus the requested offset.')
 EXPLANATION += ' C20.R1 also covers nostd::unique_ptr: outside constructors ptr_ is written only by reset/release/swap, reset deletes before it overwrites, and every assignment overload instantiated in the driver (same type, converting, from std::unique_ptr, nullptr) is reset(other.release()) / reset(). C20.R5: std::hash<nostd::string_view> is, on every path, std::hash<std::string> of string(data(), size()). Witnesses W23/W24: copying a function_ref selects the trivial copy/move constructor, not the converting template.'
 ROUND2_EXPLANATION = (' C20.R4 also: the count handed to Traits::find is size - pos. C20.R6 (string_view siblings): operator< / > are the sign of compare (3-row table), every != and mixed == overload delegates to == on its own operands in order, compare overloads hand their (pos, count) pairs to substr of the operand they belong to, find reports data()-relative offsets (constant folding). C20.R7 (span): size / empty / begin / end / data / operator[] and the index assertion as tables over the extent; span(first, last) takes extent last - first.')
+ROUND2_EXPLANATION += (' C20.R8: the unique_ptr observer / release table over the single pointer member (found by type): release() returns the stored pointer and leaves null on every path, operator bool is the comparison with null, get / operator-> / operator* yield the stored pointer, swap exchanges both sides, the conversion to std::unique_ptr goes through release().')
 EXPLANATION += ROUND2_EXPLANATION
 NOT_DECIDED = ('equivalence with the std types for every operation over runtime values: comparisons and ordering in general, the hash values themselves, '
                'find/substr results, variant selection/visitation/valueless ordering (vendored absl code is outside the analysed scope), '
@@ -741,6 +742,104 @@ def rule_r7(ck, prog, rule='C20.R7'):
     return cnt
 
 
+def rule_r8_unique_ptr_table(ck, prog, rule='C20.R8', cls='nostd::unique_ptr'):
+    """unique_ptr observers and release, as std::unique_ptr specifies them, over the single pointer member P (found by type, not
+    by name): release() returns the old P and leaves P null on every path; operator bool is P != nullptr; get() and operator->
+    return P, operator* dereferences P; swap exchanges P of both operands; the conversion to std::unique_ptr gives up ownership
+    (release(), not get())."""
+    rec = prog.record(cls)
+    ptrs = [fd['name'] for fd in rec['fields'] if fd['t'].rstrip().endswith('*') or fd['t'] in ('pointer', 'T *')]
+    if len(ptrs) != 1:
+        ptrs = [fd['name'] for fd in rec['fields']][:1]
+    P = ptrs[0]
+
+    def fs(name):
+        return sorted([x for x in prog.funcs.values() if strip_targs(x.qn).endswith(cls + '::' + name) and x.blocks], key=lambda x: x.key)
+
+    def is_P(f, idx, ctx=None):
+        return access_path(f, idx, ctx) == ('this', P)
+    seen = 0
+    for f in fs('release')[:1]:
+        seen += 1
+        g = Graph(prog, f, inline=None, sync_lambdas=False)
+        rd = reaching_defs(g)
+        nulls = [p for p in g.points if p.n is not None and p.n['k'] == 'binop' and p.n['op'] == '=' and is_P(f, p.n['lhs']) and
+                 (strip_casts(f, p.n['rhs']).get('null') or strip_casts(f, p.n['rhs']).get('v') == 0)]
+        exch = [p for p in g.points if p.n is not None and p.n['k'] == 'call' and strip_targs(p.n.get('c', '')) in ('std::exchange',) and p.n.get('args') and is_P(f, p.n['args'][0])]
+        ok = (bool(nulls) and g.exit.id not in g.reachable_from(g.entry, avoid=nulls)) or bool(exch)
+        rets = [r for r in g.returns() if r.n.get('e') is not None and r.n['e'] >= 0]
+        from_p = all(any((sn['k'] == 'member' and access_path(sf, sn['i'], sc) == ('this', P)) or (sn['k'] == 'call' and (strip_targs(sn.get('c', '')) == 'std::exchange' or strip_targs(sn.get('c', '')).endswith(cls + '::get')))
+                         for (sf, sn, sc) in origins(g, rd, f, r.n['e'], r.ctx)) for r in rets) and bool(rets)
+        ck.verdict(ok and from_p, rule, f, 'release-returns-old-and-nulls', (nulls or rets or [None])[0].n if (nulls or rets) else None,
+                   'release() returns the stored pointer and leaves null behind on every path' if ok and from_p else
+                   ('release() does not leave the pointer null: the object is deleted once by the new owner and once by this unique_ptr' if not ok else
+                    'release() does not return the pointer it gave up: the object is leaked'))
+    for f in fs('operator bool')[:1]:
+        seen += 1
+        g = Graph(prog, f, inline=None, sync_lambdas=False)
+        rets = [r for r in g.returns() if r.n.get('e') is not None]
+        verdict = None
+        for r in rets:
+            core, pol = norm_cond(f, r.n['e'])
+            c = comparison(f, core)
+            if c and c[0] in ('==', '!='):
+                sides = [c[1], c[2]]
+                if any(is_P(f, x) for x in sides) and any(strip_casts(f, x).get('null') or strip_casts(f, x).get('v') == 0 for x in sides):
+                    says_nonnull = (c[0] == '!=') if pol else (c[0] == '==')
+                    verdict = says_nonnull if verdict is None else (verdict and says_nonnull)
+                    continue
+            if is_P(f, core) or (strip_casts(f, core)['k'] == 'call' and strip_targs(strip_casts(f, core).get('c', '')).endswith('::get')):
+                verdict = pol if verdict is None else (verdict and pol)
+                continue
+            verdict = None
+            break
+        if verdict is None:
+            ck.inconclusive(rule, f, 'bool-iff-non-null', rets[0].n if rets else None, 'operator bool is not a comparison of the pointer with null')
+        else:
+            ck.verdict(verdict, rule, f, 'bool-iff-non-null', rets[0].n, 'true exactly when a pointer is held' if verdict else 'operator bool is true for an empty unique_ptr and false for one that owns an object')
+    for name, deref in (('get', False), ('operator->', False), ('operator*', True)):
+        for f in fs(name)[:1]:
+            seen += 1
+            g = Graph(prog, f, inline=None, sync_lambdas=False)
+            rd = reaching_defs(g)
+            rets = [r for r in g.returns() if r.n.get('e') is not None and r.n['e'] >= 0]
+            ok = bool(rets)
+            for r in rets:
+                e = strip_casts(f, r.n['e'])
+                if deref and e['k'] == 'unop' and e.get('op') == '*':
+                    e = strip_casts(f, e['e'])
+                elif deref:
+                    ok = False
+                srcs = origins(g, rd, f, e['i'], r.ctx)
+                if not (srcs and all((sn['k'] == 'member' and access_path(sf, sn['i'], sc) == ('this', P)) or
+                                     (sn['k'] == 'call' and strip_targs(sn.get('c', '')).endswith(cls + '::get')) for (sf, sn, sc) in srcs)):
+                    ok = False
+            ck.verdict(ok, rule, f, 'observer-yields-stored-pointer:%s' % name, rets[0].n if rets else None, '%s yields %sthe stored pointer' % (name, '*' if deref else '') if ok else
+                       '%s does not yield %sthe pointer this unique_ptr holds' % (name, 'the object behind ' if deref else ''))
+    for f in fs('swap')[:1]:
+        seen += 1
+        sw = [n for n in f.nodes if n['k'] == 'call' and strip_targs(n.get('c', '')).rsplit('::', 1)[-1] == 'swap' and len(n.get('args', [])) == 2]
+        ok = False
+        for n in sw:
+            aps = {access_path(f, a) for a in n['args']}
+            ok = ok or (('this', P) in aps and any(len(ap) == 2 and ap[0].startswith('param:') and ap[1] == P for ap in aps))
+        if not sw:
+            writes = {access_path(f, n['lhs']) for n in f.nodes if n['k'] == 'binop' and n['op'] == '='}
+            ok = ('this', P) in writes and any(len(ap) == 2 and ap[0].startswith('param:') and ap[1] == P for ap in writes)
+        ck.verdict(ok, rule, f, 'swap-exchanges-both', sw[0] if sw else None, 'both pointers are exchanged' if ok else
+                   'swap does not exchange the two stored pointers (one side is only copied): both unique_ptrs end up owning the same object, the other object is leaked')
+    for f in [x for x in prog.funcs.values() if strip_targs(x.qn).startswith('opentelemetry::' + cls + '::operator unique_ptr') or
+              (strip_targs(x.qn).startswith('opentelemetry::' + cls + '::operator ') and 'std::unique_ptr' in (x.d.get('ret') or ''))][:1]:
+        seen += 1
+        calls = {strip_targs(n.get('c', '')).rsplit('::', 1)[-1] for n in f.nodes if n['k'] == 'call' and n.get('obj') is not None and f.nodes[n['obj']]['k'] == 'this' or
+                 (n['k'] == 'call' and strip_targs(n.get('c', '')).startswith('opentelemetry::' + cls + '::'))}
+        ok = 'release' in calls and 'get' not in calls
+        ck.verdict(ok, rule, f, 'conversion-gives-up-ownership', None, 'the std::unique_ptr is built from release()' if ok else
+                   'the conversion to std::unique_ptr does not release the pointer: two owners delete the same object')
+    if seen < 5:
+        raise AnalysisBroken('C20.R8: members of nostd::unique_ptr not instantiated in the driver unit (%d found)' % seen)
+
+
 def run(ck, prog):
     ck.doc('C20.R1', 'assignment typestate: object-identity guard, source taken before release; unique_ptr: ptr_ written only through reset/release/swap, reset deletes first, every assignment overload', 11)
     ck.doc('C20.R2', 'type-level witnesses (static_assert unit compiled with the build flags)', 22)
@@ -748,6 +847,7 @@ def run(ck, prog):
     ck.doc('C20.R4', 'substr / find guards, offsets and counts', 5)
     ck.doc('C20.R5', 'std::hash<nostd::string_view> depends on the characters only', 1)
     ck.doc('C20.R6', 'string_view siblings agree: relational members are the sign of compare, != / mixed == delegate to == on their own operands, compare overloads forward their sub-range pairs, find reports the offset from the view start', 16)
+    ck.doc('C20.R8', 'unique_ptr observer / release table: release returns the old pointer and nulls it, bool <=> non-null, get / -> / * yield the stored pointer, swap exchanges both, the std conversion releases', 7)
     ck.doc('C20.R7', 'span accessors, the index assertion and the pointer-pair constructor agree with std::span / the checked-slice model (constant-folded tables)', 5)
     with ck.canary('C20.R1'):
         rule_r1(ck, prog, cls='canary::c20::bad_ptr')
@@ -759,4 +859,5 @@ def run(ck, prog):
     rule_r5(ck, prog)
     rule_r6(ck, prog)
     rule_r7(ck, prog)
+    rule_r8_unique_ptr_table(ck, prog)
     return {}
